@@ -170,7 +170,7 @@ class FP:
     absolute = resolve
 
     def __fspath__(self):
-        return self.s
+        return self.s          # only the model's os.open()/fdopen() (FakeOS) may be given a model path
 
     def open(self, mode="r", buffering=-1, encoding=None, errors=None, newline=None):
         return self.fs.open(self.s, mode)
@@ -180,6 +180,45 @@ class FP:
 
     __repr__ = __str__
 
+
+class FakeOS:
+    """os as seen by pretext_to_asm: open()/fdopen() on the model file system (O_EXCL fails on an
+    existing name, O_TRUNC truncates, without O_TRUNC old content survives), everything else real"""
+    import os as _real
+    O_WRONLY, O_RDWR, O_CREAT, O_EXCL, O_TRUNC, O_APPEND = _real.O_WRONLY, _real.O_RDWR, _real.O_CREAT, _real.O_EXCL, _real.O_TRUNC, _real.O_APPEND
+
+    def __init__(self):
+        self.fds = {}
+
+    def __getattr__(self, n):
+        import os as _o
+        return getattr(_o, n)
+
+    def open(self, path, flags, mode=0o777, *a, **k):
+        fs = THE_FS[0]
+        name = str(path)
+        ex = fs.exists(name)
+        if (flags & self.O_EXCL) and ex:
+            raise FileExistsError(17, "File exists", name)
+        if not ex and not (flags & self.O_CREAT):
+            raise FileNotFoundError(2, "No such file", name)
+        m = "x" if (flags & self.O_EXCL) else ("w" if (flags & self.O_TRUNC) or not ex else ("a" if (flags & self.O_APPEND) else "r+"))
+        fd = 1000 + len(self.fds)
+        self.fds[fd] = (name, m, ex)
+        return fd
+
+    def fdopen(self, fd, mode="r", *a, **k):
+        name, m, ex = self.fds[fd]
+        fs = THE_FS[0]
+        fs.opened.append((name, m, ex and name not in fs.created))
+        f = FakeFile(fs, name, "b" in mode)
+        if m in ("r+", "a") and name in fs.content:
+            f.parts = list(fs.content[name])
+        fs.created.add(name)
+        return f
+
+
+P2A.os = FakeOS()
 
 ECHO = []
 P2A.click.echo = lambda message=None, file=None, nl=True, err=False, color=None: ECHO.append(str(message))
@@ -268,12 +307,24 @@ def rerun_identical(case: int) -> bool:
 def planned(asm_file, prtxt_file, out_name):
     fs = FS({})
     code, msgs = run_cli(fs, asm_file, prtxt_file, out_name, True, True)
-    assert code is None, (code, msgs)
+    if code is not None:
+        raise RuntimeError(f"dry run with --clobber on an empty file system exited with {code}: {msgs[-3:]}")
     return sorted(fs.created)
 
 
-def check(asm_file, prtxt_file, out_name, plan, clobber, write_log, flags, old_size=3):
+PLANS = {}
+
+
+def check(asm_file, prtxt_file, out_name, nplan, clobber, write_log, flags, old_size=3):
     START()
+    # the set of files this run produces: from a dry run on an empty file system (once per
+    # process, inside the condition so that a crash of the dry run is reported, not swallowed)
+    key = (asm_file, prtxt_file, out_name)
+    if key not in PLANS:
+        PLANS[key] = planned(asm_file, prtxt_file, out_name)
+    plan = PLANS[key]
+    if len(plan) != nplan:
+        return FIN(False)
     pre = dict(zip(plan, flags))
     fs = FS(pre, old_size)
     code, msgs = run_cli(fs, asm_file, prtxt_file, out_name, clobber, write_log)
@@ -314,16 +365,13 @@ def _fn(case, clob=None, wl=None):
     cl = "clobber" if clob is None else str(clob)
     w = "write_log" if wl is None else str(wl)
     return name, f'''
-PLAN_{case} = planned("{a}", "{p}", "{o}")
-assert len(PLAN_{case}) == {n}, PLAN_{case}
-
 
 def {name}({", ".join(args)}) -> bool:
     """
     pre: sz >= 0
     post: _
     """
-    return check("{a}", "{p}", "{o}", PLAN_{case}, {cl}, {w}, [{", ".join(f"p{i}" for i in range(n))}], sz)
+    return check("{a}", "{p}", "{o}", {n}, {cl}, {w}, [{", ".join(f"p{i}" for i in range(n))}], sz)
 '''
 
 
@@ -338,9 +386,6 @@ def conditions(tier):
 
     def add(case, clob, wl, tier_name, to):
         name, src = _fn(case, clob, wl)
-        if case in done_plan:
-            src = src[src.index("def " + name) - 2:]
-        done_plan.add(case)
         return name, src
 
     # with --clobber every planned file is asked for (Overwrote/Created message): 2^n paths, so those are thorough-tier
